@@ -8,6 +8,7 @@ import (
 	"container/heap"
 	"fmt"
 	"sort"
+	"strings"
 	"sync"
 	"testing/synctest"
 	"time"
@@ -108,32 +109,33 @@ type node struct {
 }
 
 type world struct {
-	c         *simkit.Ctx
-	cfg       config
-	nodes     []*node
-	vals      *lib.ConsensusValidators
-	vs        lib.ValidatorSet
-	pubIdx    map[string]int
-	h         eventHeap
-	seq       uint64
-	start     time.Time
-	wake      chan struct{}
-	startH    uint64
-	rootBase  uint64
-	global    uint64 // highest root height that exists
-	groups    []int  // partition group per node (all 0 = no partition)
-	held      []*event
-	signSeen  map[string]string // sign bytes -> meaning of the first message seen with them
-	adv       *adversary
-	truth     map[string]map[string]map[string]bool // pub -> view key -> payload hashes signed (replica votes)
-	blockSeq  int
-	firstAt   map[uint64]*commitRec // first commit by a correct node per height
-	gstRound  uint64
-	gstDone   bool
-	gstHeight uint64
-	worstSkew time.Duration
-	exit      string
-	slashed   map[string]bool // address|height already slashed (root-chain double signer index)
+	c           *simkit.Ctx
+	cfg         config
+	nodes       []*node
+	vals        *lib.ConsensusValidators
+	vs          lib.ValidatorSet
+	pubIdx      map[string]int
+	h           eventHeap
+	seq         uint64
+	start       time.Time
+	wake        chan struct{}
+	startH      uint64
+	rootBase    uint64
+	global      uint64 // highest root height that exists
+	groups      []int  // partition group per node (all 0 = no partition)
+	held        []*event
+	signSeen    map[string]string // sign bytes -> meaning of the first message seen with them
+	errAfterGST map[string]int    // error messages logged by correct replicas after GST (liveness diagnosis)
+	adv         *adversary
+	truth       map[string]map[string]map[string]bool // pub -> view key -> payload hashes signed (replica votes)
+	blockSeq    int
+	firstAt     map[uint64]*commitRec // first commit by a correct node per height
+	gstRound    uint64
+	gstDone     bool
+	gstHeight   uint64
+	worstSkew   time.Duration
+	exit        string
+	slashed     map[string]bool // address|height already slashed (root-chain double signer index)
 }
 
 func (w *world) now() time.Duration { return time.Since(w.start) }
@@ -279,7 +281,26 @@ func newWorld(c *simkit.Ctx, cfg config) *world {
 	}
 	for i := 0; i < cfg.n; i++ {
 		n := &node{w: w, idx: i, key: keys[i], pub: keys[i].PublicKey().Bytes(), addr: keys[i].PublicKey().Address().Bytes(), byz: cfg.byz[i],
-			committed: map[uint64]*commitRec{}, height: w.startH - 1, root: w.rootBase, stop: make(chan struct{}), log: &simkit.Logger{}}
+			committed: map[uint64]*commitRec{}, height: w.startH - 1, root: w.rootBase, stop: make(chan struct{}), log: &simkit.Logger{Verbose: c.Verbose}}
+		if !cfg.byz[i] {
+			n.log.OnError = func(msg string) {
+				if !w.gstDone {
+					return
+				}
+				if w.errAfterGST == nil {
+					w.errAfterGST = map[string]int{}
+				}
+				// the "Message:" line of a lib.ErrorI, or the text itself
+				if j := strings.Index(msg, "Message:"); j >= 0 {
+					msg = msg[j+8:]
+				}
+				msg = strings.TrimSpace(strings.SplitN(msg, "\n", 2)[0])
+				if len(msg) > 80 {
+					msg = msg[:80]
+				}
+				w.errAfterGST[msg]++
+			}
+		}
 		w.pubIdx[string(n.pub)] = i
 		n.ctl = &simController{n: n}
 		bc := lib.DefaultConfig()
